@@ -121,6 +121,11 @@ type stubImporter struct{}
 
 func (stubImporter) Import(path string) (*types.Package, error) {
 	p := types.NewPackage(path, filepath.Base(path))
+	if path == "errors" { // [ext:T20] errors.New has a type, so that `var ErrX = errors.New("..")` and `err == ErrX` are typed
+		sig := types.NewSignatureType(nil, nil, nil, types.NewTuple(types.NewVar(token.NoPos, p, "text", types.Typ[types.String])),
+			types.NewTuple(types.NewVar(token.NoPos, p, "", types.Universe.Lookup("error").Type())), false)
+		p.Scope().Insert(types.NewFunc(token.NoPos, p, "New", sig))
+	}
 	p.MarkComplete()
 	return p, nil
 }
